@@ -676,7 +676,7 @@ def _split_tuple_assignments(tree):
                     if isinstance(s, (ast.Assign, ast.AnnAssign)) and getattr(s, "value", None) is not None and isinstance(nxt, ast.If):
                         tg = s.targets[0] if isinstance(s, ast.Assign) and len(s.targets) == 1 else getattr(s, "target", None)
                         if isinstance(tg, ast.Name) and tg.id not in params and loads.get(tg.id, 0) == 1 and stores.get(tg.id, 0) == 1 \
-                                and isinstance(s.value, (ast.BoolOp, ast.Compare, ast.UnaryOp)):
+                                and isinstance(s.value, (ast.BoolOp, ast.Compare, ast.UnaryOp, ast.Call)):
                             fo = first_operand(nxt.test)
                             if isinstance(fo, ast.Name) and fo.id == tg.id:
                                 val = s.value
